@@ -166,6 +166,7 @@ struct VC
 struct Thread
 {
   int id;
+  int slot;  // stack slot: recycled after the thread was joined, so thread ids (pthread_t) recur as they do with glibc
   pthread_t real;
   volatile int go;
   enum State : uint8_t { RUNNABLE, FINISHED } state;
@@ -302,6 +303,8 @@ struct Sim
   int64_t lowest_prio;
   bool tso;                 // x86-TSO store buffering for this run
   uint64_t tso_stores, tso_delays;
+  Vec<int> free_slots;
+  int slots_used;
   Vec<uint32_t> switch_log;  // triples: step, from, to (first 200 switches)
 };
 
@@ -321,6 +324,7 @@ Thread *find_thread_by_real(pthread_t p);
 void sim_reset_run_state();
 void sim_start_run();            // controller: create T0, hand the baton, wait for done
 void sim_join_real_threads();
+void sim_real_join_and_recycle(Thread *t);
 static inline bool in_sim() { return tl_self != nullptr && g.active; }
 long raw_syscall6(long n, long a, long b, long c, long d, long e, long f);
 
